@@ -1053,9 +1053,24 @@ def explicit_to_augmented(fn, int_attrs: set) -> int:
     for body in _stmt_blocks(fn):
         for i, s in enumerate(body):
             if isinstance(s, ast.Assign) and len(s.targets) == 1 and isinstance(s.targets[0], ast.Attribute) and s.targets[0].attr in int_attrs \
-                    and isinstance(s.value, ast.BinOp) and isinstance(s.value.op, (ast.Add, ast.Sub)) and src(s.value.left) == src(s.targets[0]):
-                new = ast.AugAssign(target=s.targets[0], op=s.value.op, value=s.value.right)
+                    and isinstance(s.value, ast.BinOp) and isinstance(s.value.op, (ast.Add, ast.Sub)):
+                # flatten the left-associative chain  X (+|-) a (+|-) b ...
+                terms = []
+                e = s.value
+                while isinstance(e, ast.BinOp) and isinstance(e.op, (ast.Add, ast.Sub)):
+                    terms.append((type(e.op), e.right))
+                    e = e.left
+                if src(e) != src(s.targets[0]):
+                    continue
+                terms.reverse()
+                first_op, value = terms[0]
+                for op_, t_ in terms[1:]:
+                    # X - a + b = X - (a - b) ; X + a - b = X + (a - b)
+                    same = (op_ is first_op)
+                    value = ast.BinOp(left=value, op=ast.Add() if same else ast.Sub(), right=t_)
+                new = ast.AugAssign(target=s.targets[0], op=first_op(), value=value)
                 ast.copy_location(new, s)
+                ast.fix_missing_locations(new)
                 body[i] = new
                 count += 1
     return count
